@@ -258,7 +258,6 @@ func VerifC19Split() {
 	vReach("end")
 }
 
-
 // VerifC19Reconnect: several connections in a row on one client, each through the real
 // Connect (stub dialler), recv, runLoop, send. On every connection the negotiation is
 // started once and ended once, whatever the previous connection went through (welcome
